@@ -19,7 +19,7 @@ ASSUME = [
 DAILY = ["1h", "1.5h", "1.6h", "2h", "2.5h", "3.5h", "4h", "90min", "1d"]
 WEEKLY = ["5h", "7.5h", "10h", "10.6h", "16h", "450min", "1d", "0.5w"]
 BOTH = ["2h+5h", "1.5h+7.5h", "4h+10h", "1h+16h"]   # a daily AND a weekly limit on the same entity (either may be the binding one)
-PLACES = ["res", "group", "grandgroup", "task", "container", "grandcontainer", "restrict", "team", "groupteam", "midslot", "midslot-group", "teampre"]
+PLACES = ["res", "group", "grandgroup", "task", "container", "grandcontainer", "restrict", "restrict+general", "team", "groupteam", "midslot", "midslot-group", "teampre"]
 HORIZONS = {
     # name: (start, dur, effort hours for a weekly 5h / daily 2h limit)
     "fits": ("2025-01-06", "3w"),
@@ -101,6 +101,14 @@ def to_spec(it):
         tasks = [{"id": "box", "limits": lim, "children": [x, {"id": "y", "effort": eff_min // 2, "alloc": ["r2"]}]}]
     elif place == "restrict":
         x["limits"] = {k: (v, ["r1"]) for k, v in lim.items()}
+    elif place == "restrict+general":
+        # ONE limits block with a general entry and a tighter entry of the same kind restricted to r1, on a container over two tasks
+        x["effort"] = eff_min // 2
+        pairs = []
+        for k, v in lim.items():
+            loose = f"{_hours(v) * 2}h"
+            pairs += [(k, loose), (k, (v, ["r1"]))]
+        tasks = [{"id": "box", "limits": pairs, "children": [x, {"id": "y", "effort": eff_min // 2, "alloc": ["r2"]}]}]
     elif place == "team":
         x["alloc"] = ["r1", "r2"]
         x["effort"] = eff_min // 2
